@@ -103,6 +103,10 @@ type spec struct {
 	buffer      int
 	mask        []bool // matcher verdict per pool item
 	logItems    []int  // pool item per index
+	// non-fatal stream (nonfatal_test.go): which implementation of the matcher kind mk is configured
+	// ("" = the harness's own certMatcher / leafMatcher, or no matcher at all for mk "nil") and with what
+	impl    string   // "all" | "subject-regex" | "serial" | "issuer-regex" (mk "cert"); "parse-fail" | "parse-fail+non-fatal" (mk "leaf")
+	implArg []string // the common names / the serial number / the issuer name the matcher is built from
 }
 
 // ---------------------------------------------------------------- entry pool for scans
@@ -112,9 +116,28 @@ type poolItem struct {
 	leaf   ct.LeafEntry
 	key    string // callback identity: RawLogEntry.Cert.Data
 	serial string
+	// what the matchers of the repository look at (subject / issuer common name of the parsed [pre-]certificate)
+	cn, issuer string
+	// the [pre-]certificate parses, but the repository's parser complains about it (x509.NonFatalErrors):
+	// which tolerable defect it carries ("" = none)
+	defect string
 }
 
 var pool []poolItem
+
+// basePool: the pool items the older streams draw from (clean certificates and precertificates, unparsable
+// ones, broken leaves).  The items after them carry a tolerable defect each (buildNonFatalPool); they are
+// scanned by the fixed scan cases and by the non-fatal stream (nonfatal_test.go).
+const basePool = 18
+
+// padMask extends a matcher mask drawn for the first basePool items to the whole pool (the older streams
+// never log the later items; their PRNG consumption stays what it was).
+func padMask(m []bool) []bool {
+	for len(m) < len(pool) {
+		m = append(m, true)
+	}
+	return m
+}
 
 func must(err error) {
 	if err != nil {
@@ -130,7 +153,8 @@ func buildPool() {
 		c := pki.Issue(pki.Opts{CN: fmt.Sprintf("leaf%d.example", i)}, root)
 		li, err := tls.Marshal(*ct.CreateX509MerkleTreeLeaf(ct.ASN1Cert{Data: c.DER}, uint64(1000+i)))
 		must(err)
-		pool = append(pool, poolItem{class: "x509", leaf: ct.LeafEntry{LeafInput: li, ExtraData: chain}, key: string(c.DER), serial: c.Cert.SerialNumber.String()})
+		pool = append(pool, poolItem{class: "x509", leaf: ct.LeafEntry{LeafInput: li, ExtraData: chain}, key: string(c.DER), serial: c.Cert.SerialNumber.String(),
+			cn: fmt.Sprintf("leaf%d.example", i), issuer: "c16 root"})
 	}
 	for i := 0; i < 6; i++ {
 		c := pki.Issue(pki.Opts{CN: fmt.Sprintf("pre%d.example", i)}, root)
@@ -142,7 +166,8 @@ func buildPool() {
 		must(err)
 		extra, err := tls.Marshal(ct.PrecertChainEntry{PreCertificate: ct.ASN1Cert{Data: pre.DER}, CertificateChain: []ct.ASN1Cert{{Data: root.DER}}})
 		must(err)
-		pool = append(pool, poolItem{class: "pre", leaf: ct.LeafEntry{LeafInput: li, ExtraData: extra}, key: string(pre.DER), serial: c.Cert.SerialNumber.String()})
+		pool = append(pool, poolItem{class: "pre", leaf: ct.LeafEntry{LeafInput: li, ExtraData: extra}, key: string(pre.DER), serial: c.Cert.SerialNumber.String(),
+			cn: fmt.Sprintf("pre%d.example", i), issuer: "c16 root"})
 	}
 	for i := 0; i < 2; i++ { // well-formed leaf around bytes that are not a certificate
 		der := []byte{0x30, 0x03, 0x01, 0x02, byte(i)}
@@ -153,13 +178,18 @@ func buildPool() {
 	// leaf input that does not unmarshal; good leaf with extra data that does not unmarshal
 	pool = append(pool, poolItem{class: "bad", leaf: ct.LeafEntry{LeafInput: []byte{0xff, 0x00, 0x01}, ExtraData: chain}})
 	pool = append(pool, poolItem{class: "bad", leaf: ct.LeafEntry{LeafInput: pool[0].leaf.LeafInput, ExtraData: []byte{0x00, 0x00, 0x09, 0x01}}})
+	if len(pool) != basePool {
+		panic("c16: basePool is out of date")
+	}
+	buildNonFatalPool(root)
 	// sanity: the classes are what the real parsers say
 	for i, p := range pool {
 		rle, err := ct.RawLogEntryFromLeaf(0, &p.leaf)
 		got := "bad"
 		if err == nil {
-			_, perr := rle.ToLogEntry()
+			le, perr := rle.ToLogEntry()
 			fatal := perr != nil && x509.IsFatal(perr)
+			checkParsed(i, p, le, perr)
 			switch rle.Leaf.TimestampedEntry.EntryType {
 			case ct.X509LogEntryType:
 				got = "x509"
@@ -592,8 +622,10 @@ func runCase(t *testing.T, sp *spec, seed int64, bail func(res *result)) *result
 		fo := scanner.FetcherOptions{BatchSize: sp.batch, ParallelFetch: sp.workers, StartIndex: sp.start, EndIndex: sp.end, Continuous: sp.cont}
 		if sp.scan {
 			so := scanner.ScannerOptions{FetcherOptions: fo, PrecertOnly: sp.precertOnly, NumWorkers: sp.matchers, BufferSize: sp.buffer}
-			switch sp.mk {
-			case "cert":
+			switch {
+			case sp.impl != "":
+				so.Matcher = repoMatcher(sp)
+			case sp.mk == "cert":
 				sel := map[string]bool{}
 				for i, p := range pool {
 					if p.serial != "" {
@@ -601,7 +633,7 @@ func runCase(t *testing.T, sp *spec, seed int64, bail func(res *result)) *result
 					}
 				}
 				so.Matcher = certMatcher{sel, l.matchHook}
-			case "leaf":
+			case sp.mk == "leaf":
 				sel := map[string]bool{}
 				for i, p := range pool {
 					sel[string(p.leaf.LeafInput)+"|"+string(p.leaf.ExtraData)] = sp.mask[i]
@@ -894,13 +926,13 @@ func genScan(r *mrand.Rand) *spec {
 		sp.logLen = int(sz)
 		sp.tag, sp.endAction = "scan-cont-cancel", "cancel"
 	}
-	for i := range pool {
+	for i := 0; i < basePool; i++ {
 		sp.mask = append(sp.mask, r.Intn(3) != 0)
-		_ = i
 	}
+	sp.mask = padMask(sp.mask)
 	for i := 0; i < sp.logLen; i++ {
 		if r.Intn(6) == 0 {
-			sp.logItems = append(sp.logItems, 14+r.Intn(len(pool)-14)) // unparsable kinds
+			sp.logItems = append(sp.logItems, 14+r.Intn(basePool-14)) // unparsable kinds
 		} else {
 			sp.logItems = append(sp.logItems, r.Intn(14))
 		}
@@ -944,12 +976,13 @@ func genScanCancel(r *mrand.Rand) *spec {
 	if r.Intn(6) == 0 && sp.mk == "cert" { // MatchAll after all, cancelled at a found callback
 		sp.mk, sp.cancelAtMatch, sp.cancelReq, sp.cancelAtFound = "nil", 0, 0, 1+r.Intn(n/2+1)
 	}
-	for range pool {
+	for i := 0; i < basePool; i++ {
 		sp.mask = append(sp.mask, r.Intn(4) != 0)
 	}
+	sp.mask = padMask(sp.mask)
 	for i := 0; i < sp.logLen; i++ {
 		if r.Intn(8) == 0 {
-			sp.logItems = append(sp.logItems, 14+r.Intn(len(pool)-14))
+			sp.logItems = append(sp.logItems, 14+r.Intn(basePool-14))
 		} else {
 			sp.logItems = append(sp.logItems, r.Intn(14))
 		}
@@ -1209,7 +1242,11 @@ func emit(w *lib.Writer, sp *spec, res *result) {
 			if !cancelled {
 				for i := lo; i < hi; i++ {
 					if k := selected(sp, sp.logItems[i]); k != "" && got[key{i, k}] != 1 {
-						fail("matcher=%s selects index %d (%s) but it got %d callbacks", sp.mk, i, k, got[key{i, k}])
+						what := ""
+						if d := pool[sp.logItems[i]].defect; d != "" {
+							what = "; the entry parses with a non-fatal complaint: " + d
+						}
+						fail("matcher=%s selects index %d (%s) but it got %d callbacks%s", matcherName(sp), i, k, got[key{i, k}], what)
 						break
 					}
 				}
@@ -1251,6 +1288,19 @@ func emit(w *lib.Writer, sp *spec, res *result) {
 		"continuous": sp.cont, "tree_sizes": sizes, "answers_by_start_index": script, "stop_at_request": sp.stopAtReq, "cancel_at_request": sp.cancelReq}
 	if sp.scan {
 		in["matcher"], in["precert_only"], in["matchers"], in["buffer"] = sp.mk, sp.precertOnly, sp.matchers, sp.buffer
+		if sp.impl != "" {
+			in["matcher_implementation"], in["matcher_built_from"] = sp.impl, sp.implArg
+		}
+		// which entries of the log parse with a complaint of the parser that is not fatal
+		nf := map[string]string{}
+		for i, it := range sp.logItems {
+			if d := pool[it].defect; d != "" {
+				nf[fmt.Sprint(i)] = pool[it].class + ": " + d
+			}
+		}
+		if len(nf) > 0 {
+			in["entries_with_non_fatal_parse_errors"] = nf
+		}
 		in["cancel_at_matcher_evaluation"], in["cancel_at_found_callback"] = sp.cancelAtMatch, sp.cancelAtFound
 	}
 	tags := []string{"mode:" + sp.tag, fmt.Sprintf("workers:%d", sp.workers)}
@@ -1289,6 +1339,15 @@ func emit(w *lib.Writer, sp *spec, res *result) {
 	}
 	if sp.scan {
 		tags = append(tags, "matcher:"+sp.mk, fmt.Sprintf("scan:matchers=%d", sp.matchers))
+		if sp.impl != "" {
+			tags = append(tags, "matcher-impl:"+sp.impl)
+		}
+		for _, it := range sp.logItems {
+			if pool[it].defect != "" {
+				tags = append(tags, "scan:non-fatal-entries")
+				break
+			}
+		}
 		switch {
 		case sp.buffer == 0:
 			tags = append(tags, "scan:buffer=0")
@@ -1357,15 +1416,18 @@ func TestHarness(t *testing.T) {
 	for i := range seeds {
 		seeds[i] = r.Int63()
 	}
-	for i, sp := range specs {
-		bail := func(res *result) {
-			emit(w, sp, res)
-			w.Close()
-			fmt.Printf("c16: case %d never returns and its bubble cannot be left; wrote %d cases and stopped\n", i, w.Len())
-			os.Exit(0)
+	runSpecs := func(specs []*spec, seeds []int64) {
+		for i, sp := range specs {
+			bail := func(res *result) {
+				emit(w, sp, res)
+				w.Close()
+				fmt.Printf("c16: case %d (%s) never returns and its bubble cannot be left; wrote %d cases and stopped\n", i, sp.tag, w.Len())
+				os.Exit(0)
+			}
+			emit(w, sp, runCase(t, sp, seeds[i], bail))
 		}
-		emit(w, sp, runCase(t, sp, seeds[i], bail))
 	}
+	runSpecs(specs, seeds)
 	// the consumers of the Fetcher: what reaches the destination (consume_test.go)
 	mspecs := fixedMigrate()
 	for i, n := 0, lib.Count(260, 3000); i < n; i++ {
@@ -1385,6 +1447,30 @@ func TestHarness(t *testing.T) {
 		late := os.Getenv("VERIF_C16_COPIER_LATE") != "0"
 		for i, n := 0, lib.Count(60, 600); i < n; i++ {
 			sp := genCopy(r, late)
+			emitCopy(w, sp, runCopy(t, sp, rootsFile))
+		}
+	}
+	// entries whose [pre-]certificate parses with a complaint that is not fatal (nonfatal_test.go), through the
+	// Scanner with the repository's matchers and through the two consumers (placed last: the streams above
+	// keep their cases)
+	{
+		nfSpecs := fixedScanNF()
+		for i, n := 0, lib.Count(150, 1200); i < n; i++ {
+			nfSpecs = append(nfSpecs, genScanNF(r))
+		}
+		nfSeeds := make([]int64, len(nfSpecs))
+		for i := range nfSeeds {
+			nfSeeds[i] = r.Int63()
+		}
+		runSpecs(nfSpecs, nfSeeds)
+		for i, n := 0, lib.Count(30, 300); i < n; i++ {
+			sp := genMigrateNF(r)
+			emitMigrate(w, sp, runMigrate(t, sp))
+		}
+		rootsFile := writeRootsFile(t.TempDir())
+		late := os.Getenv("VERIF_C16_COPIER_LATE") != "0"
+		for i, n := 0, lib.Count(24, 240); i < n; i++ {
+			sp := genCopyNF(r, late)
 			emitCopy(w, sp, runCopy(t, sp, rootsFile))
 		}
 	}
